@@ -304,3 +304,10 @@ package dialer
 //@   modifies *
 //@   at call markUnavailableInternal#1 assert a1 == typ && a2 && a3
 //@   ensures calls("markUnavailableInternal") == 1 && calls("informDialerGroupUpdate") == 1
+
+// every alive-set the node belongs to is told the node's new state, with the node itself as subject
+//@ func (*Dialer).informDialerGroupUpdate
+//@   anchorsonly
+//@   dyncalls noeffect
+//@   modifies *
+//@   at call NotifyLatencyChange#1 assert a0 == update.aliveDialerGroups[$idx] && a1 == d && a2 == update.alive
